@@ -139,7 +139,13 @@ func (sg *Getter) GetSamples(
 				if samples[i].IsEmpty() {
 					return errors.New("nil response")
 				}
-				return samples[i].Verify(header.DAH, request.RowIndex, request.ShareIndex)
+				err := samples[i].Verify(header.DAH, request.RowIndex, request.ShareIndex)
+				if err != nil {
+					// the slice is returned to the caller even if the request fails in the end:
+					// do not leave a sample in it that did not pass verification
+					samples[i] = shwap.Sample{}
+				}
+				return err
 			}
 			return sg.executeRequest(ctx, logger, header, request.Name(), req, verify)
 		})
